@@ -287,6 +287,9 @@ class BaseStorer(ABC):
 
         if num_events == 1:
             num_particles = self.num_output_per_event_[0][1]
+        elif num_events == 0:
+            # No events are held: the counts array is empty (and may be 1D)
+            num_particles = np.array([], dtype=int)
         else:
             num_particles = self.num_output_per_event_[:, 1]
 
